@@ -25,8 +25,8 @@ Qed.
    tzrange/tzstr and tzfile: some function of exactly the compared fields. *)
 Section Offsets.
   Variable isdst : Z -> bool.
-  Variable range_off : Z -> Z -> Z.
-  Variable file_off : Z -> Z -> Z.
+  Variable range_off : Z -> Z -> Z -> Z -> Z -> Z -> Z -> Z.
+  Variable file_off : Z -> Z -> Z -> Z -> Z.
   Variable ical_off : Z -> Z -> Z.
 
   Definition utcoffset (z : zone) (i : Z) : Z :=
@@ -34,8 +34,8 @@ Section Offsets.
     | ZUtc _ => 0
     | ZOffset _ _ off => off
     | ZLocal _ std dst _ => if hasdst std dst && isdst i then dst else std
-    | ZRange _ _ fl => range_off fl i
-    | ZFile _ _ d => file_off d i
+    | ZRange _ _ sa da so dof sd ed => range_off sa da so dof sd ed i
+    | ZFile _ _ fl fi ft => file_off fl fi ft i
     | ZIcal id => ical_off id i
     end.
 
